@@ -146,11 +146,18 @@ pub fn poll_ready<F: Future>(f: F) -> Option<F::Output> {
     None
 }
 
+/// set by `proto.bigbin`: binary payloads are printed as `@<length>.<checksum>` instead of in hex
+static COMPACT_BINARY: std::sync::atomic::AtomicBool = std::sync::atomic::AtomicBool::new(false);
+
 pub fn fmt_frame(f: &Frame) -> String {
     let fs: Vec<String> = f.fields().map(|(k, v)| format!("{}={}", hex(k.as_bytes()), hex(v.as_bytes()))).collect();
     let fs = if fs.is_empty() { "_".to_string() } else { fs.join(",") };
     let b = match f.binary() {
         None => "~".to_string(),
+        Some(b) if COMPACT_BINARY.load(std::sync::atomic::Ordering::Relaxed) => {
+            let sum = b.iter().fold(0u32, |s, x| s.wrapping_mul(31).wrapping_add(*x as u32));
+            format!("@{}.{}", b.len(), sum)
+        }
         Some(b) => hex(b),
     };
     format!("{fs};{b}")
@@ -930,6 +937,10 @@ pub fn gen(cfg: &Cfg) -> Vec<String> {
             flaky_ops(&mut r, &mut ops, cfg.n.unwrap_or(400 * scale));
         }
         "C02" => {
+            // > 16 MiB through one connection in reads that always fill the space offered: the blocking
+            // buffer doubles up to 16 MiB; what is received must not depend on that
+            ops.push(format!("proto.bigbin s 1048576 17 {} eof 1", hex(b"volume: 1\nOK\n")));
+            ops.push(format!("proto.bigbin a 1048576 17 {} eof 1", hex(b"v")));
             big_pair_ops(&mut ops, cfg.seed);
             flaky_ops(&mut r, &mut ops, 150 * scale);
             let n = cfg.n.unwrap_or(if cfg.thorough { 4000 } else { 600 });
@@ -1192,6 +1203,25 @@ pub fn exec(op: &[&str]) -> String {
         "proto.recv" => {
             let stream = unhex(op[2]);
             session(op[1], cut_chunks(&stream, op[3]), parse_term(op[4]), op[5].parse().unwrap())
+        }
+        "proto.bigbin" => {
+            // scale: `count` responses of one `size`-byte binary chunk each, then `follower`, all in ONE
+            // chunk, so that every read fills the space it offers (the blocking buffer doubles each time)
+            let size: usize = op[2].parse().unwrap();
+            let count: usize = op[3].parse().unwrap();
+            let mut stream = Vec::with_capacity(count * (size + 32));
+            for _ in 0..count {
+                stream.extend_from_slice(format!("binary: {size}\n").as_bytes());
+                stream.extend((0..size).map(|i| (i * 7 + 3) as u8));
+                stream.extend_from_slice(b"\nOK\n");
+            }
+            if op[4] != "-" {
+                stream.extend_from_slice(&unhex(op[4]));
+            }
+            COMPACT_BINARY.store(true, std::sync::atomic::Ordering::Relaxed);
+            let r = session(op[1], vec![stream], parse_term(op[5]), op[6].parse().unwrap());
+            COMPACT_BINARY.store(false, std::sync::atomic::Ordering::Relaxed);
+            r
         }
         "proto.flaky" => {
             let stream = unhex(op[2]);
